@@ -264,7 +264,8 @@ def decide(pid, tier):
             details.setdefault(o["case"], {})[o["component"]] = o.get("detail", "")
 
     # 3. verdict per case
-    known = [k for k in load_known() if k["property"] == pid and k.get("status") == "known"]
+    known = [k for k in load_known() if k["property"] in ([pid] + cfg.get("known_for", [])) and k.get("status") == "known"
+             and any(c.startswith("prop." + pid.lower()) or c.startswith("corr.") for c in k.get("components", []))]
     reproduced = {k["id"]: 0 for k in known}
     corr_names = set()
     corr_fail, prop_fail = [], []
@@ -272,7 +273,8 @@ def decide(pid, tier):
         for comp, ok in comps.items():
             if comp.startswith("corr."):
                 corr_names.add(comp)
-            if ok or not (comp.startswith("corr.") or comp.startswith("prop.")):
+            if ok or not (comp.startswith("corr.") or comp.startswith("prop." + pid.lower() + ".") or
+                          (comp.startswith("prop.") and comp.count(".") == 1)):
                 continue
             attributed = None
             for k in known:
